@@ -64,6 +64,12 @@ class Prop:
     harness_includes_c = []    # repo .c files #included by the harness itself (not taken from libeasel.a)
     harness_flags = []
     sanitize = True
+    claimed = False            # listed in MANIFEST.checks by tools/mkmanifest.py when True
+    technique = "Lean 4 proof + differential correspondence"
+    level_text = ""
+    level_note = ""
+    na_reason = None
+    diverge_is_violation = False   # True when every op is a deterministic function the model specifies exactly
     trusted_base = []
     assumptions = []
     rule = ""
@@ -539,10 +545,17 @@ def correspondence(ctx, cases, batch=400):
 # 5/6. verdict, known findings, evidence
 # ----------------------------------------------------------------------------------------------
 def load_known():
+    """known_findings.json (+ optional per-property fragments known_findings.d/*.json), committed, never written at run time"""
+    out = []
     p = os.path.join(VERIF, "known_findings.json")
-    if not os.path.exists(p):
-        return []
-    return json.load(open(p)).get("findings", [])
+    if os.path.exists(p):
+        out += json.load(open(p)).get("findings", [])
+    d = os.path.join(VERIF, "known_findings.d")
+    if os.path.isdir(d):
+        for fn in sorted(os.listdir(d)):
+            if fn.endswith(".json"):
+                out += json.load(open(os.path.join(d, fn))).get("findings", [])
+    return out
 
 
 def shrink_case(ctx, case, still_fails, max_steps=200):
@@ -642,7 +655,8 @@ def run_check(prop, tier, seed, replay=None):
     vpath = None
     if violations:
         rc = 1
-        concrete = [f for f in violations if f.kind in ("monitor", "fault")]
+        concrete = [f for f in violations if f.kind in ("monitor", "fault")
+                    or (f.kind == "diverge" and getattr(prop, "diverge_is_violation", False))]
         if concrete:
             f = concrete[0]
             if f.case and ctx.harness_exe and len(f.case.get("ops", [])) > 2:
@@ -698,5 +712,12 @@ def case_still_fails(ctx, case, f):
     impl = [l for l in impl if l != ""]
     if f.kind == "fault":
         return any(l.startswith("fault ") for l in impl)
+    if f.kind == "diverge":
+        if not ctx.driver_exe:
+            return False
+        model = [l for l in (run_side(ctx.driver_exe, [case], cwd=ctx.work)[0] or []) if l != ""]
+        if any(l.startswith(("fault ", "atexit ")) for l in impl) or any(l == "bad-op" for l in model + impl):
+            return False      # shrinking must not turn a divergence into an ill-formed case
+        return ctx.prop.compare(ctx, case, impl, model) is not None
     m = ctx.prop.monitor(ctx, case, impl)
     return m is not None
